@@ -259,31 +259,6 @@ theorem f13C_reproduces (s : Text) (v : F13C) (h : F13C.parse s = .ok v) : F13C.
 
 theorem stable_13C : Stable F13C.parse F13C.ser := stable_of_reproduces _ _ f13C_reproduces
 
-theorem all_isDigit_iff (t : Text) : t.all Char.isDigit = t.all isDigitC := by
-  induction t with
-  | nil => rfl
-  | cons c cs ih => simp [List.all_cons, isDigit_iff, ih]
-
-/-- what a numeric component that was read satisfies -/
-theorem numRead {c : Text} {k mx n : Nat} (hk : ¬ blen c > k) (hd : c.all Char.isDigit = true) (hu : parseUInt c mx = .ok n) :
-    c.length ≤ k ∧ c ≠ [] ∧ n = digitsVal c 0 ∧ n ≤ mx ∧ n < 10 ^ k := by
-  have hasc := all_digit_ascii c hd
-  have hb := blen_ascii c hasc
-  unfold parseUInt at hu
-  split at hu; · cases hu
-  rename_i hne
-  simp only at hu
-  split at hu
-  · rename_i hle
-    cases hu
-    have hl : c.length ≤ k := by omega
-    have hlt := digitsVal_lt c 0 (by rw [← all_isDigit_iff]; exact hd)
-    refine ⟨hl, ?_, rfl, hle, ?_⟩
-    · intro h0; subst h0; simp at hne
-    · have : 10 ^ c.length ≤ 10 ^ k := Nat.pow_le_pow_right (by decide) hl
-      omega
-  · cases hu
-
 /-- what is written for a number is read back as that number -/
 theorem numWrite (n w k mx : Nat) (hk : 0 < k) (hw : w ≤ k) (hn : n < 10 ^ k) (hm : n ≤ mx) :
     ¬ blen (padLeft (natDigits n) w) > k ∧ (padLeft (natDigits n) w).all Char.isDigit = true ∧
